@@ -16,7 +16,7 @@ import traceback
 HERE = os.path.dirname(os.path.abspath(__file__))
 sys.path.insert(0, os.path.dirname(HERE))
 
-RUN_TIMEOUT = float(os.environ.get("VERIF_RUN_TIMEOUT", "120"))
+RUN_TIMEOUT = float(os.environ.get("VERIF_RUN_TIMEOUT", "300"))
 
 
 def _child(mod, item, tier, wfd):
